@@ -151,7 +151,10 @@ CHECKS["C10"] = dict(
           ' storage.; callbacks are pass-through, read-only on the source (no write callback), or translating (the storage holds '
           'every byte XORed with a key only the callbacks know, so an access that bypasses them sees garbage; not for YUV '
           'sources, whose fetchers address memory directly by design); accessors are not installed on > 32 bpp images (documented'
-          ' restriction). Non-trivial = unaligned start/end, indexed/YUV source, or accessor callbacks observed.'),
+          ' restriction). Value law for every narrow source format incl. indexed and YUV: what the float pipeline reads '
+          '(rgba_float destination) is within one 8-bit step of what the 8-bit pipeline reads. Callbacks may be installed after '
+          'the images were first drawn with. The codec property also runs under the MMX and the general-only chain. Non-trivial ='
+          ' unaligned start/end, indexed/YUV source, or accessor callbacks observed.'),
     jobs=[
         dict(harness="formats", prop="exh", cases=T(150, 1500), procs=T(4, 8)),
         dict(harness="formats", prop="codec", cases=T(12000, 250000), procs=T(6, 12)),
@@ -175,12 +178,15 @@ CHECKS["C01"] = dict(
           'pixel channels biased to {0,1,max/2,max/2+1,max-1,max}, premultiplied-valid and arbitrary values, repeating '
           'destinations (opaque-destination column of the operator table). Solid sources/masks carry genuinely 16-bit channels in'
           ' 30% of cases (alpha 0xff00..0xfffe: opaque at 8 bits only); the 8-bit classes see the high bytes, the float class the'
-          ' 16-bit values. Oracle by class: exact (Porter-Duff + ADD, all formats <= 8 bpc): bit-exact vs. integer model (round-'
-          'to-nearest products, saturating sums, replication/truncation); float pipeline: within 1 + 1/64 destination step of the'
-          ' long-double Render/PDF equations (1e-4 for float destinations), premultiplied inputs only; PDF blend modes in the '
-          '8-bit pipeline: within 2 steps of the equation on exact-rule-masked inputs. HSL with a component-alpha mask is only '
-          'checked to leave the destination (no equation in the statement). Non-trivial = operator reads both operands or a mask '
-          'is present, and some source alpha strictly between 0 and 1 or a mask.'),
+          " 16-bit values. Rows may lie at y = 1 or 2 of a taller image; 6% of cases are 'pixbuf' requests (an a8r8g8b8/a8b8g8r8 "
+          'mask image created on the storage of the x8r8g8b8/x8b8g8r8 source, read at the same or at a different position). Run '
+          'under the default chain, the MMX chain, the C-only chain and the general-only chain. Oracle by class: exact (Porter-'
+          'Duff + ADD, all formats <= 8 bpc): bit-exact vs. integer model (round-to-nearest products, saturating sums, '
+          'replication/truncation); float pipeline: within 1 + 1/64 destination step of the long-double Render/PDF equations '
+          '(1e-4 for float destinations), premultiplied inputs only; PDF blend modes in the 8-bit pipeline: within 2 steps of the'
+          ' equation on exact-rule-masked inputs. HSL with a component-alpha mask is only checked to leave the destination (no '
+          'equation in the statement). Non-trivial = operator reads both operands or a mask is present, and some source alpha '
+          'strictly between 0 and 1 or a mask.'),
     jobs=[
         dict(harness="combine", prop="combine", cases=T(150000, 1500000), procs=T(6, 12)),
         dict(harness="combine", prop="combine", cases=T(15000, 200000), procs=T(1, 2), env={"PIXMAN_DISABLE": "sse2 ssse3 mmx"}, tag="combine_nosimd"),
@@ -195,16 +201,17 @@ CHECKS["C01"] = dict(
 
 CHECKS["C12"] = dict(
     level="exploration",
-    rule=("rapidcheck cases: a1/a4/a8 images 1-40 x 1-24 (incl. widths 1,31,32,33,64, padded strides, zero/random/full prefill), "
-          "trapezoids whose top/bottom and line points are biased onto pixel boundaries, sample rows/columns +-2 units and 1/16 "
-          "steps, lines spanning or not spanning the trapezoid's height, shapes partly/wholly outside, x/y offsets -40..40. Laws: "
-          "(model) every pixel equals the saturating count of grid samples with X_l <= x < X_r, top <= y < bottom computed in exact "
-          "rational arithmetic (pixels where an edge passes within 2 units of a sample point are skipped and counted); horizontal "
-          "split, edge split with the middle line given by the same two points, whole-pixel offset commutation, triangle = "
-          "independent two-trapezoid decomposition and permutation invariance, add_traps = rasterize of the equivalent trapezoid, "
-          "composite_trapezoids(op in CLEAR..SATURATE, solid/bits source, 6 destination formats) = rasterise into a zeroed mask + "
-          "composite32. Non-trivial = some sample covered and a non-vertical edge (law dependent)."
-          " Also run coverage-guided: the libFuzzer target fz_traps decodes the fuzzer's bytes through the same generator into the same oracle (ASan build)."),
+    rule=('rapidcheck cases: a1/a4/a8 images 1-40 x 1-24 (incl. widths 1,31,32,33,64, padded strides, zero/random/full prefill), '
+          'trapezoids whose top/bottom and line points are biased onto pixel boundaries, sample rows/columns +-2 units and 1/16 '
+          "steps, lines spanning or not spanning the trapezoid's height, shapes partly/wholly outside, x/y offsets -40..40. 6% of"
+          ' trapezoids have lines given by two points 8000-30000 px above the image and a bottom far below it. Laws: (model) '
+          'every pixel equals the saturating count of grid samples with X_l <= x < X_r, top <= y < bottom computed in exact '
+          'rational arithmetic (pixels where an edge passes within 2 units of a sample point are skipped and counted); horizontal'
+          ' split, edge split with the middle line given by the same two points, whole-pixel offset commutation, triangle = '
+          'independent two-trapezoid decomposition and permutation invariance, add_traps = rasterize of the equivalent trapezoid,'
+          ' composite_trapezoids(op in CLEAR..SATURATE, solid/bits source, 6 destination formats) = rasterise into a zeroed mask '
+          '+ composite32. Non-trivial = some sample covered and a non-vertical edge (law dependent). Also run coverage-guided: '
+          "the libFuzzer target fz_traps decodes the fuzzer's bytes through the same generator into the same oracle (ASan build)."),
     jobs=[
         dict(harness="traps", prop="traps", cases=T(40000, 800000), procs=T(8, 14)),
         dict(harness="traps_asan", prop="traps", cases=T(5000, 100000), procs=T(2, 2)),
@@ -323,16 +330,19 @@ CHECKS["C04"] = dict(
 
 CHECKS["C08"] = dict(
     level="exploration",
-    rule=("rapidcheck scenes: source 1-9 x 1-9 of a8r8g8b8/x8r8g8b8/r5g6b5/a8 (70%) or another narrow format incl. indexed and "
-          "sub-byte, OP_SRC into a8r8g8b8 (1-12 x 1-4, optionally split by a clip so that scanlines start at different x), "
-          "transform from {integer/fractional translate, scale incl. negative, rot90 family, general affine, projective}, with "
-          "fractional parts biased to {0, 1/2, 1 unit, 1-1 unit, 1/4, 3/4} and first samples steered onto pixel boundaries +-2 "
-          "units; filters NEAREST/FAST, BILINEAR/GOOD/BEST, CONVOLUTION (1-5 x 1-5, negative taps), SEPARABLE_CONVOLUTION (1-5 "
-          "taps, 0-4 phase bits per axis); all four repeats. Oracle: independent implementation of rounding.txt (exact matrix "
-          "product rounded half-up, projective quotient rounded toward zero or -inf, floor(x-e), 7-bit bilinear weights with "
-          "truncating sum, k = floor(x-(w-1)/2-e) kernel alignment, phase rounding, repeat by definition), bit-exact. Run under the "
-          "default chain, without SIMD, and general-only. Non-trivial = not an integer translate, >= 2 distinct source values "
-          "sampled, and (repeat with samples outside, or a sample within 2 units of a pixel boundary/centre, or projective)."),
+    rule=('rapidcheck scenes: source 1-9 x 1-9 of a8r8g8b8/x8r8g8b8/r5g6b5/a8 (70%) or another narrow format incl. indexed and '
+          'sub-byte, OP_SRC into a8r8g8b8 (1-12 x 1-4, optionally split by a clip so that scanlines start at different x), '
+          'transform from {integer/fractional translate, scale incl. negative, rot90 family, general affine, projective}, with '
+          'fractional parts biased to {0, 1/2, 1 unit, 1-1 unit, 1/4, 3/4} and first samples steered onto pixel boundaries +-2 '
+          'units; filters NEAREST/FAST, BILINEAR/GOOD/BEST, CONVOLUTION (1-5 x 1-5, negative taps), SEPARABLE_CONVOLUTION (1-5 '
+          'taps, 0-4 phase bits per axis); all four repeats. 6% of sources are 20000-32000 px wide and sampled with a large step '
+          'from left of the image; 15% of requests go through an untransformed a8 mask with runs of 0x00/0xff under SRC or OVER '
+          '(expected value = exact 8-bit combination of the reference sample, the mask and the old destination). Oracle: '
+          'independent implementation of rounding.txt (exact matrix product rounded half-up, projective quotient rounded toward '
+          'zero or -inf, floor(x-e), 7-bit bilinear weights with truncating sum, k = floor(x-(w-1)/2-e) kernel alignment, phase '
+          'rounding, repeat by definition), bit-exact. Run under the default chain, without SIMD, and general-only. Non-trivial ='
+          ' not an integer translate, >= 2 distinct source values sampled, and (repeat with samples outside, or a sample within 2'
+          ' units of a pixel boundary/centre, or projective).'),
     jobs=[
         dict(harness="sampling", prop="sampling", cases=T(40000, 700000), procs=T(6, 10)),
         dict(harness="sampling", prop="sampling", cases=T(20000, 300000), procs=T(1, 2), env={"PIXMAN_DISABLE": "sse2 ssse3 mmx"}, tag="sampling_nosimd"),
@@ -386,15 +396,16 @@ CHECKS["C13"] = dict(
           'a8r8g8b8 and rgba_float destinations; rows of 1-40 pixels. Special modes (6% each): 1-3 px wide, 300-4000 px tall '
           'requests over almost horizontal linear gradients; geometry 16400-29000 px away from the request; internally tangent '
           'circles (a == 0 exactly). 30% of requests use OVER onto a random destination instead of SRC (pixels without admissible'
-          ' parameter must keep the destination exactly). Oracle: t from the geometry in long double at the pixel centre and at '
-          'positions a few 1/65536 away (scaled by the projective conditioning), colour = repeat applied to t, two neighbouring '
-          'stops interpolated in non-premultiplied space, premultiplied; every channel must lie within 1 step of the range of the'
-          ' reference over the admissible t interval (endpoints, interior samples, both sides of every stop image); no admissible'
-          ' t => transparent. Skipped and counted: pixels where admissibility flips or t moves > 0.02 within the position '
-          'uncertainty, REPEAT_NONE between 0/1 and the first/last stop (only one neighbouring stop), degenerate linear axes, '
-          'requests the library drops (C04). (gradsafe) arbitrary stop lists (unsorted, out of range, INT32 limits), degenerate '
-          'geometry, singular transforms under ASan with a per-case watchdog. Non-trivial = a checked row crosses a stop image or'
-          ' a repeat seam.'),
+          " parameter must keep the destination exactly). 'Keystone' projective transforms (one non-zero entry in the last row); "
+          '20% of requests are drawn through an a8 mask with runs of 0x00/0xff (pixels under other mask values are not asserted).'
+          ' Oracle: t from the geometry in long double at the pixel centre and at positions a few 1/65536 away (scaled by the '
+          'projective conditioning), colour = repeat applied to t, two neighbouring stops interpolated in non-premultiplied '
+          'space, premultiplied; every channel must lie within 1 step of the range of the reference over the admissible t '
+          'interval (endpoints, interior samples, both sides of every stop image); no admissible t => transparent. Skipped and '
+          'counted: pixels where admissibility flips or t moves > 0.02 within the position uncertainty, REPEAT_NONE between 0/1 '
+          'and the first/last stop (only one neighbouring stop), degenerate linear axes, requests the library drops (C04). '
+          '(gradsafe) arbitrary stop lists (unsorted, out of range, INT32 limits), degenerate geometry, singular transforms under'
+          ' ASan with a per-case watchdog. Non-trivial = a checked row crosses a stop image or a repeat seam.'),
     jobs=[
         dict(harness="gradients", prop="gradient", cases=T(30000, 500000), procs=T(8, 12)),
         dict(harness="gradients_asan", prop="gradsafe", cases=T(15000, 300000), procs=T(3, 4), args=["--watchdog", "20"]),
@@ -408,21 +419,23 @@ CHECKS["C13"] = dict(
 
 CHECKS["C17"] = dict(
     level="exploration",
-    rule=("(cache) rapidcheck histories of freeze / thaw / insert / lookup / remove / draw / insert_block / remove_block over a key "
-          "pool whose (font,glyph) sums collide, against a model map + recency list: lookup is non-NULL exactly for model keys and "
-          "returns the entry insert returned; insert fails exactly at capacity; the caller's image is scribbled and destroyed after "
-          "insertion and the entry must still draw like the inserted image (and report its extents); after a thaw to zero the "
-          "survivors must be a most-recently-used prefix: all (never more than the high-water mark), the low-water count, or none "
-          "(only if more removals/evictions than the high-water mark happened since the table was last cleared); every call returns "
-          "within a 10 s watchdog. Run on the hook build with a 16-slot table (HIGH 8, LOW 4: full table, tombstone build-up and "
-          "collisions within a few commands) under ASan, on the real constants, and (bigcache) at the real capacity of 32768. "
-          "(draw) 1-12 glyphs of a8/a1/a4/a8r8g8b8/x8r8g8b8/r3g3b2/a8b8g8r8/b8g8r8a8/a4r4g4b4 at positions partly/wholly outside, "
-          "8 destination formats with multi-box clips, all operators, solid/bits/gradient sources: composite_glyphs_no_mask must "
-          "equal per-glyph composite32 with a copy of the glyph (component alpha iff the format has A and RGB), composite_glyphs "
-          "must equal ADD-accumulating (white IN glyph) into a zeroed a8/a1/a4/a8r8g8b8 mask and one composite32, bit for bit on "
-          "defined bits. Non-trivial = a thaw that evicts, a full table, or removals among >= 3 entries (cache); overlapping "
-          "glyphs of >= 2 formats (draw)."
-          " Also run coverage-guided: the libFuzzer target fz_glyphs decodes the fuzzer's bytes through the same generator into the same oracle (ASan build, 16-slot glyph table)."),
+    rule=('(cache) rapidcheck histories of freeze / thaw / insert / lookup / remove / draw / insert_block / remove_block over a '
+          'key pool whose (font,glyph) sums collide, against a model map + recency list: lookup is non-NULL exactly for model '
+          "keys and returns the entry insert returned; insert fails exactly at capacity; the caller's image is scribbled and "
+          'destroyed after insertion and the entry must still draw like the inserted image (and report its extents); after a thaw'
+          ' to zero the survivors must be a most-recently-used prefix: all (never more than the high-water mark), the low-water '
+          'count, or none (only if more removals/evictions than the high-water mark happened since the table was last cleared); '
+          'every call returns within a 10 s watchdog. Run on the hook build with a 16-slot table (HIGH 8, LOW 4: full table, '
+          'tombstone build-up and collisions within a few commands) under ASan, on the real constants, and (bigcache) at the real'
+          ' capacity of 32768. (draw) 1-12 glyphs of a8/a1/a4/a8r8g8b8/x8r8g8b8/r3g3b2/a8b8g8r8/b8g8r8a8/a4r4g4b4 at positions '
+          'partly/wholly outside, 8 destination formats with multi-box clips, all operators, solid/bits/gradient sources: '
+          'composite_glyphs_no_mask must equal per-glyph composite32 with a copy of the glyph (component alpha iff the format has'
+          ' A and RGB), composite_glyphs must equal ADD-accumulating (white IN glyph) into a zeroed a8/a1/a4/a8r8g8b8 mask and '
+          'one composite32, bit for bit on defined bits. Mask formats of composite_glyphs also include a8b8g8r8, b8g8r8a8 and '
+          'r8g8b8a8. Transformed sources are used inside the drawable domain only (each per-glyph rectangle). Non-trivial = a '
+          'thaw that evicts, a full table, or removals among >= 3 entries (cache); overlapping glyphs of >= 2 formats (draw). '
+          "Also run coverage-guided: the libFuzzer target fz_glyphs decodes the fuzzer's bytes through the same generator into "
+          'the same oracle (ASan build, 16-slot glyph table).'),
     jobs=[
         dict(harness="glyphs_small", prop="cache", cases=T(6000, 100000), procs=T(4, 8), args=["--watchdog", "10"]),
         dict(harness="glyphs", prop="cache", cases=T(4000, 60000), procs=T(2, 4), args=["--watchdog", "10"]),
@@ -439,16 +452,20 @@ CHECKS["C17"] = dict(
 
 CHECKS["C14"] = dict(
     level="exploration",
-    rule=("rapidcheck histories (up to ~50 commands) over long-lived source (bits of 7 formats incl. indexed and 10 bpc, or a linear "
-          "gradient), mask, destination and two alpha-map images: set_transform / set_filter (incl. two convolution kernels that "
-          "share size and leading coefficients) / set_repeat / set_clip_region (16- and 32-bit entry, NULL) / has_client_clip / "
-          "source_clipping / set_alpha_map (attach, move, share between owners, detach) / component_alpha / accessors on-off (also on "
-          "the alpha-map images) / set_indexed / set_dither, direct writes into the pixel storage, and composite checkpoints, with "
-          "values from pools of 6 so that repeats and A->B->A returns are common (explicit A,draw,B,draw,A,draw motifs are "
-          "appended). At every checkpoint the request is also drawn on freshly created replicas that receive only the model's "
-          "current values (one setter each) and the current pixel bytes; destinations and destination alpha maps must be identical "
-          "on defined bits. Non-trivial = >= 2 checkpoints, >= 2 different properties of an already-used image changed, and some "
-          "property returned to an earlier value."),
+    rule=('rapidcheck histories (up to ~50 commands) over long-lived source (bits of 7 formats incl. indexed and 10 bpc, or a '
+          'linear gradient), mask, destination and two alpha-map images: set_transform / set_filter (incl. two convolution '
+          'kernels that share size and leading coefficients) / set_repeat / set_clip_region (16- and 32-bit entry, NULL) / '
+          'has_client_clip / source_clipping / set_alpha_map (attach, move, share between owners, detach) / component_alpha / '
+          'accessors on-off (also on the alpha-map images) / set_indexed / set_dither, direct writes into the pixel storage, and '
+          'composite checkpoints, with values from pools of 6 so that repeats and A->B->A returns are common (explicit '
+          'A,draw,B,draw,A,draw motifs are appended). The clip pool contains a set-but-empty region; the mask is read at the '
+          "source's position or at its origin; a 'twin' motif toggles the mask's component-alpha setting between identical "
+          'requests on a source and mask of equal format and position. The replicas are drawn on a freshly started thread (so '
+          "that the drawing thread's fast-path cache is part of the history being tested). At every checkpoint the request is "
+          "also drawn on freshly created replicas that receive only the model's current values (one setter each) and the current "
+          'pixel bytes; destinations and destination alpha maps must be identical on defined bits. Non-trivial = >= 2 '
+          'checkpoints, >= 2 different properties of an already-used image changed, and some property returned to an earlier '
+          'value.'),
     jobs=[
         dict(harness="history", prop="history", cases=T(12000, 250000), procs=T(6, 12)),
         dict(harness="history_asan", prop="history", cases=T(3000, 60000), procs=T(2, 4)),
@@ -463,15 +480,15 @@ CHECKS["C20"] = dict(
     rule=('rapidcheck histories over a pool of 6 image slots (bits with library-owned and caller-owned buffers, indexed, solid, '
           'linear/radial/conical): create, ref, unref, set_destroy_function (callback checks image/data pairing and that the '
           'image is intact), set_alpha_map (attach, re-attach the same, replace, detach, chains that must be refused), '
-          'set_clip_region32, set_transform, set_filter with parameter arrays (replaced several times), set_indexed, glyph-cache '
-          'insert/remove of pool images, drawing, refused constructor calls (overflowing size, stride not a multiple of 4, format'
-          ' deeper than its pixel: NULL and nothing left allocated); then the pool is drained. Model: user reference count + '
-          "'held as alpha map by' edges. unref returns TRUE exactly when the model's count reaches zero; each destroy callback "
-          'fires exactly once and exactly then; maps stay alive while attached and die with their owner; refused chains do not '
-          "extend lifetimes; after draining the library's live-allocation counter is back to its starting value; built with ASan "
-          '(use after free, double free) and LSan; a second job runs the same histories against the 16-slot glyph table of hook 3'
-          ' (every slot incl. the last holds a glyph at some point). Non-trivial = a map is unreferenced by the user before its '
-          'owner, or an owned parameter buffer is replaced twice.'),
+          'set_clip_region32 / set_clip_region (16-bit), set_transform, set_filter with parameter arrays (replaced several '
+          'times), set_indexed, glyph-cache insert/remove of pool images, drawing, refused constructor calls (overflowing size, '
+          'stride not a multiple of 4, format deeper than its pixel: NULL and nothing left allocated); then the pool is drained. '
+          "Model: user reference count + 'held as alpha map by' edges. unref returns TRUE exactly when the model's count reaches "
+          'zero; each destroy callback fires exactly once and exactly then; maps stay alive while attached and die with their '
+          "owner; refused chains do not extend lifetimes; after draining the library's live-allocation counter is back to its "
+          'starting value; built with ASan (use after free, double free) and LSan; a second job runs the same histories against '
+          'the 16-slot glyph table of hook 3 (every slot incl. the last holds a glyph at some point). Non-trivial = a map is '
+          'unreferenced by the user before its owner, or an owned parameter buffer is replaced twice.'),
     jobs=[dict(harness="lifetime_asan", prop="lifetime", cases=T(15000, 300000), procs=T(8, 12)),
           # the same histories against the 16-slot glyph table of hook 3: every slot of the table, the last one included, holds
           # a glyph of a pool image at some point before the cache is destroyed
